@@ -38,8 +38,9 @@ ProjOK(m) ==
   /\ Chk("outputs_are_exact_inverse_of_inputs", Ev.proj.outputs_inverse_ok)
   /\ Chk("update_order_is_topological", Ev.proj.topo_ok)
 
-TAdd == IsEvent("add") /\ Add(Ev.o) /\ Step
-TAddAgain == IsEvent("add") /\ Ev.o \in gb /\ UNCHANGED bvars /\ Step
+AddOK == Chk("object_added_to_the_builder_without_error", "crash" \notin DOMAIN Ev \/ Ev.crash = "")
+TAdd == IsEvent("add") /\ Add(Ev.o) /\ AddOK /\ Step
+TAddAgain == IsEvent("add") /\ Ev.o \in gb /\ AddOK /\ UNCHANGED bvars /\ Step
 
 TBuild ==
   /\ IsEvent("build")
